@@ -98,6 +98,18 @@ def expectBragg (d : Option α) (energy : α) : Expect α :=
         let s := KEV2ANGST / energy / ((2.0 : α) * d)
         if (1.0 : α) < s then .fails else .value (XNum.asin s)
 
+/-- expectation for `Bragg_angle(crystal, E, i, j, k)`; `d`: the spacing the library reports for the same crystal and indices
+(`none`: not known — no claim beyond the argument checks).  `E ≤ 0`, no crystal, (0,0,0): an error. -/
+def expectBraggAt (crystal : Option (Crystal α)) (d : Option α) (energy : α) (i j k : Int) : Expect α :=
+  if energy ≤ (0.0 : α) then .fails
+  else match crystal with
+    | none => .fails
+    | some _ =>
+      if i = 0 ∧ j = 0 ∧ k = 0 then .fails
+      else match d with
+        | none => .any
+        | some d => expectBragg (some d) energy
+
 /-- `Q = sin(rel_angle · θ_B) / λ` -/
 def expectQ (theta : Option α) (energy : α) (i j k : Int) (rel_angle : α) : Expect α :=
   if energy ≤ (0.0 : α) then .fails
@@ -105,6 +117,16 @@ def expectQ (theta : Option α) (energy : α) (i j k : Int) (rel_angle : α) : E
   else match theta with
     | none => .fails
     | some th => .value (XNum.sin (rel_angle * th) / (KEV2ANGST / energy))
+
+/-- expectation for `Q_scattering_amplitude(crystal, E, i, j, k, rel_angle)`: `E ≤ 0` → an error; (0,0,0) → 0 whatever the
+crystal; otherwise `sin(rel_angle · θ_B)/λ` with the Bragg angle `θ_B` expected of `Bragg_angle` (an error when that is one) -/
+def expectQAt (crystal : Option (Crystal α)) (d : Option α) (energy : α) (i j k : Int) (rel_angle : α) : Expect α :=
+  if energy ≤ (0.0 : α) then .fails
+  else if i = 0 ∧ j = 0 ∧ k = 0 then .value (0.0 : α)
+  else match expectBraggAt crystal d energy i j k with
+    | .fails => .fails
+    | .any => .any
+    | .value th => expectQ (some th) energy i j k rel_angle
 
 /-- one partial term: flag 0 → absent, flag 2 → the value, flag 1 → the constant 1 (allowed for f₀ only) -/
 def term (allowOne : Bool) (flag : Int) (x : α) : Option α :=
@@ -188,6 +210,12 @@ def Returns2 (r : M ((α × α) × Slot)) (F : α × α) (error : Slot) : Prop :
 /-- a complex-valued call failed: `(0, 0)` and exactly one error (valid code, non-empty message) in the caller's slot -/
 def Fails2 (r : M ((α × α) × Slot)) (error : Slot) : Prop :=
   ∃ e : Err, e.msg ≠ "" ∧ e.code ≤ XRL_ERROR_RUNTIME ∧ r = Except.ok (((0.0 : α), (0.0 : α)), error.withErr e)
+
+/-- a complex-valued call meets an expectation -/
+def Meets2 (r : M ((α × α) × Slot)) (error : Slot) : Expect (α × α) → Prop
+  | .value F => Returns2 r F error
+  | .fails => Fails2 r error
+  | .any => True
 
 end
 end Spec
